@@ -784,8 +784,59 @@ def parse_take(arg):
         sel = m.group(1).strip(); members = m.group(2).split()
     return path, sel, members, opts
 
+def find_seq(toks, pat, lo, hi, occ=0):
+    n = 0
+    for i in range(lo, hi - len(pat) + 1):
+        if all(toks[i + k].text == pat[k].text for k in range(len(pat))):
+            if n == occ: return i
+            n += 1
+    return None
+
+def extract_region(repo, path, spec, cfg, world, log):
+    """`#take <file> region {json}`: a run of consecutive statements of a function body, verbatim, wrapped into a
+    function of its own whose signature (and optional prologue / result expression) the contract supplies.
+    {"in": "impl X :: f", "from": "<tokens of the first statement's start>", "from_occ": k,
+     "to": "<tokens ending the last statement>" | "to_before": "<tokens starting the statement after the region>",
+     "sig": "fn name(params) -> (r: T)", "pre": "let ...;", "post": "expr"}"""
+    toks = read_tokens(repo, path)
+    sel = spec["in"]
+    m = re.match(r"^(.*?)\s+::\s+(\w+)$", sel)
+    if m:
+        (s, kw, e) = find_item(toks, 0, len(toks), m.group(1))
+        bo, bc = body_range(toks, kw, e)
+        (fs, fk, fe) = find_item(toks, bo + 1, bc, "fn " + m.group(2))
+    else:
+        (fs, fk, fe) = find_item(toks, 0, len(toks), sel)
+    fbo, fbc = body_range(toks, fk, fe)
+    a = find_seq(toks, lex(spec["from"]), fbo + 1, fbc, spec.get("from_occ", 0))
+    if a is None:
+        raise Undecided("region start %r not found in %s" % (spec["from"], sel))
+    if "to_before" in spec:
+        b = find_seq(toks, lex(spec["to_before"]), a, fbc, spec.get("to_occ", 0))
+        if b is None: raise Undecided("region end %r not found" % spec["to_before"])
+        end = b
+    else:
+        pat = lex(spec["to"])
+        b = find_seq(toks, pat, a, fbc, spec.get("to_occ", 0))
+        if b is None: raise Undecided("region end %r not found" % spec["to"])
+        end = b + len(pat)
+    region = toks[a:end]
+    ln = toks[a].line
+    item = toks_of(spec["sig"], ln) + [T("punct", "{", ln)] + toks_of(spec.get("pre", ""), ln) + region + toks_of(spec.get("post", ""), toks[end - 1].line) + [T("punct", "}", toks[end - 1].line)]
+    log.append(("REGION", ln, "statements %d..%d of %s wrapped into `%s`" % (toks[a].line, toks[end - 1].line, sel, spec["sig"][:80])))
+    c = dict(cfg)
+    item = apply_rewrites(item, c, log)
+    from . import gen as _gen
+    for u in item:
+        if u.kind == "num" and _gen.is_float_lit(u.text):
+            FLOAT_LITS.add(u.text)
+    return layout(item)
+
 def extract_take(repo, arg, cfg, world, log):
     """-> list of (text, srcline) canonical lines for one #take directive"""
+    mreg = re.match(r"^(\S+)\s+region\s+(\{.*\})\s*$", arg)
+    if mreg:
+        return extract_region(repo, mreg.group(1), json.loads(mreg.group(2)), cfg, world, log)
     path, sel, members, opts = parse_take(arg)
     toks = read_tokens(repo, path)
     if sel == "consts":
